@@ -28,13 +28,13 @@ class C12(Scenario):
             "shape, stream length, number of placements).")
     assumptions = ["only quantity functions fail (exception or wrong return type), as the statement says",
                    "fan-out collections are not generated (outside the guarantee)"]
-    expected_faults = ["q_raise", "q_badtype"]
+    expected_faults = ["q_raise", "q_badtype", "q_missing_field"]
     expected_probes = ["fault_in_nested_child", "fault_on_new_sparse_bin", "fault_not_reached"]
 
     def generate(self, rng, tier, profile):
         big = tier == "thorough"
         opts = specmod.merge_opts(prims=specmod.LEAVES + specmod.SINGLE, depth=5 if big else 4, max_nodes=16,
-                                  qkinds=[("lambda", 5), ("named", 1), ("def", 1)])
+                                  qkinds=[("lambda", 5), ("named", 1), ("def", 1), ("str", 2)], str_plain=True)
         t = rng.fork("tree")
         sp = specmod.gen_spec(t, opts)
         tries = 0
@@ -50,6 +50,13 @@ class C12(Scenario):
         nodes = [nd["id"] for nd in specmod.nodes(sp) if nd["f"] is not None]
         f = rng.fork("faults")
         steps = [{"op": "stream", "faults": []}]  # fault-free control
+        fields = sorted(set(nd["f"] for nd in specmod.nodes(sp) if nd["f"] in ("x", "y", "s", "t", "c", "b")))
+        if not long_:
+            for pos in range(n):
+                for fld in fields:
+                    # the record at this position lacks one field: every quantity that reads it raises (KeyError for a
+                    # function, NameError for a string expression)
+                    steps.append({"op": "stream", "faults": [], "missing": [[pos, fld]]})
         if not long_:
             for pos in range(n):
                 for nd in nodes:
@@ -82,10 +89,16 @@ class C12(Scenario):
                     faults.setdefault(pos, {})[nd] = mode
             survivors = []
             ok_fills = 0
+            missing = {}
+            for pos, fld in st.get("missing", []):
+                missing.setdefault(pos, []).append(fld)
             for pos, rec in enumerate(w.records):
                 if pos >= len(ws):
                     break
                 armed = faults.get(pos, {})
+                if pos in missing:
+                    rec = {k: v for k, v in rec.items() if k not in missing[pos]}
+                    readers = [nd for nd in specmod.nodes(sp) if nd["f"] in missing[pos] or (nd["f"] in ("xy", "xyc") and set(missing[pos]) & set(nd["f"]))]
                 before = observe.observe(h)
                 keys_before = self._sparse_keys(h)
                 gate.STATE.armed = dict(armed)
@@ -93,6 +106,10 @@ class C12(Scenario):
                 o = call(h.fill, rec, ws[pos])
                 fired = list(gate.STATE.fired)
                 gate.STATE.armed = {}
+                if pos in missing and not o.ok and not fired:
+                    # a quantity could not read the missing field: same contract as any other raising quantity function
+                    fired = [(readers[0]["id"] if readers else 0, "missing")]
+                    w.bump("fault_q_missing_field")
                 if o.ok:
                     if fired:
                         # the armed gate was called yet fill returned normally: the wrong-typed value was accepted
@@ -112,7 +129,8 @@ class C12(Scenario):
                                          "a fill without a fired fault raised %s" % o.describe(), si, {"pos": pos})
                 units += 1
                 for nd, mode in fired[:1]:
-                    w.bump("fault_q_" + mode)
+                    if mode != "missing":
+                        w.bump("fault_q_" + mode)
                     if depth[nd] >= 1 and 0 in keys_before:
                         # the failing record was routed through a sparse container that had no bin yet
                         w.bump("probe_fault_on_new_sparse_bin")
